@@ -416,6 +416,28 @@ def gen_inputs(tier, B):
             k = (2 * j + 1) * len(blob) // (2 * npos)
             items.append(("%s[:%d]" % (nm, k), "xz", blob[:k], "full"))
             items.append(("%s^20@%d" % (nm, k), "xz", blob[:k] + bytes([blob[k] ^ 0x20]) + blob[k + 1:], "full"))
+    # a later Block whose header is valid (CRC recomputed) but names a chain liblzma cannot run (LZMA2 -> a lone Delta filter),
+    # at every Block position: everything before that Block must still be delivered, for every thread count
+    import zlib
+    pos, bi = 12, 0
+    while pos < len(mb) and mb[pos] != 0 and bi < 10:
+        hs = (mb[pos] + 1) * 4
+        hdr = bytearray(mb[pos:pos + hs])
+        q = hdr.find(b"\x21\x01", 2)
+        # sizes of this Block from its header (both size fields are present in threaded-encoder output)
+        def vli(buf, p):
+            v = sh = 0
+            while True:
+                b = buf[p]; p += 1; v |= (b & 0x7F) << sh; sh += 7
+                if not b & 0x80:
+                    return v, p
+        p2 = 2; csize, p2 = vli(hdr, p2)
+        if q > 0:
+            hdr[q] = 0x03; hdr[q + 2] = 0x00
+            hdr[-4:] = zlib.crc32(bytes(hdr[:-4])).to_bytes(4, "little")
+            items.append(("mtblocks:block%d-unusable-chain" % bi, "xz", mb[:pos] + bytes(hdr) + mb[pos + hs:], "full"))
+        pos += hs + ((csize + 3) & ~3) + 4
+        bi += 1
     # truncations and single-byte corruptions
     for n, e, b in seeds:
         ln = len(b)
